@@ -18,3 +18,11 @@ pub open spec fn term_val(f: AffineForm, env: Env, j: int) -> real { rmul_s(env[
 pub open spec fn tail_sum(f: AffineForm, env: Env, j: int) -> real {
     tsum(f.coefficients.keys(), f.coefficients.map(), env, f.coefficients.keys().len() as int) - tsum(f.coefficients.keys(), f.coefficients.map(), env, j)
 }
+// the row's value satisfies the comparison against 0 (this is what required_bounds encodes)
+pub open spec fn contains_req(c: Comparison, d: real) -> bool {
+    match c {
+        Comparison::LessOrEqual | Comparison::Less => d <= 0real,
+        Comparison::GreaterOrEqual | Comparison::Greater => d >= 0real,
+        Comparison::Equal => d == 0real,
+    }
+}
